@@ -32,6 +32,10 @@ def pv (s : String) : VarArg :=
   if s == "g" then .global else if s == "b" then .bad else if s == "f" then .fixed
   else if s == "r" then .recv else .chr
 
+/-- type letter of the harness -> class of x_len_NC_attrV: c char, b byte | s short | i int, f float | d double -/
+def px (s : String) : XT :=
+  if s == "c" || s == "b" then .x1 else if s == "s" then .x2 else if s == "d" then .x8 else .x4
+
 def parseCall : List String → Option Call
   | ["enddef"] => some .enddef
   | ["enddefargs", n] => some (.enddefArgs (pb n))
@@ -45,12 +49,15 @@ def parseCall : List String → Option Call
   | ["defvarfill", v] => some (.defVarFill (pv v))
   | ["setfill"] => some .setFill
   | ["delatt", v, nb, ex] => some (.delAtt (pv v) (pb nb) (pb ex))
-  | ["putatt", v, nb, tb, cm, nl, ex, gr] => some (.putAtt (pv v) (pb nb) (pb tb) (pb cm) (pb nl) (pb ex) (pb gr))
+  -- putatt v nameBad typeBad charMix negLen exists oldType oldCount newType newCount [attribute name: C side only]
+  | "putatt" :: v :: nb :: tb :: cm :: nl :: ex :: ot :: on :: nt :: nn :: _ =>
+    some (.putAtt (pv v) (pb nb) (pb tb) (pb cm) (pb nl) (pb ex) (px ot) on.toNat! (px nt) nn.toNat!)
   | ["getatt", v, nb, ex] => some (.getAtt (pv v) (pb nb) (pb ex))
-  | ["copyatt", vi, vo, nb, se, de, gr] => some (.copyAtt (pb vi) (pb vo) (pb nb) (pb se) (pb de) (pb gr))
-  | ["renameatt", v, nb, ex, iu, lg] => some (.renameAtt (pv v) (pb nb) (pb ex) (pb iu) (pb lg))
-  | ["renamevar", v, nb, iu, lg] => some (.renameVar (pv v) (pb nb) (pb iu) (pb lg))
-  | ["renamedim", nb, db, iu, lg] => some (.renameDim (pb nb) (pb db) (pb iu) (pb lg))
+  | "copyatt" :: vi :: vo :: nb :: se :: de :: st :: sn :: dt :: dn :: _ =>
+    some (.copyAtt (pb vi) (pb vo) (pb nb) (pb se) (pb de) (px st) sn.toNat! (px dt) dn.toNat!)
+  | "renameatt" :: v :: nb :: ex :: iu :: ol :: nl :: _ => some (.renameAtt (pv v) (pb nb) (pb ex) (pb iu) ol.toNat! nl.toNat!)
+  | ["renamevar", v, nb, iu, ol, nl] => some (.renameVar (pv v) (pb nb) (pb iu) ol.toNat! nl.toNat!)
+  | ["renamedim", nb, db, iu, ol, nl] => some (.renameDim (pb nb) (pb db) (pb iu) ol.toNat! nl.toNat!)
   | "rw" :: p :: c :: v :: t :: cb :: fl => some (.rw (pb p) (pb c) (pv v) (pb t) (pb cb) (fl == ["varn"]))
   | "post" :: k :: v :: t :: cb :: _ =>
     let kind := if k == "iput" then PostKind.iput else if k == "iget" then PostKind.iget else PostKind.bput
